@@ -123,16 +123,18 @@ pub fn intersect_cc<'a>(mut a: &'a Circle, mut b: &'a Circle) -> CircleIntersect
         }
         CircleIntersection::TouchInside(a.c + (b.c - a.c) / d * a.r)
     } else if d < a.r + b.r - EPS {
-        let line = Line::new(
-            -a.c.x * 2.0 + b.c.x * 2.0,
-            -a.c.y * 2.0 + b.c.y * 2.0,
-            a.c.x.powi(2) + a.c.y.powi(2) - b.c.x.powi(2) - b.c.y.powi(2) - a.r.powi(2) + b.r.powi(2),
-        );
-        // The centre distance is EPS-clear of both tangent distances, so the circles cross in two points: cut the
-        // larger circle with the radical axis. (Going through intersect_cl would apply its own EPS to the distance
-        // of the axis from the centre, which for circles of very different size is a far coarser test and reported
-        // crossing circles - even near an internal tangency - as TouchOutside.)
-        let (u, v) = chord(a, &line, line.dist(&a.c).min(a.r));
+        // The centre distance is EPS-clear of both tangent distances, so the circles cross in two points. They are
+        // measured from the smaller circle b: t is the (signed) distance from its centre to the radical axis, towards
+        // a. Measured from the larger circle - or through intersect_cl, whose EPS test on the axis distance is far
+        // coarser for circles of very different size - an error in that distance is amplified by d / b.r when the
+        // point is compared with the smaller circle, and crossing circles were reported as TouchOutside.
+        let dir = (a.c - b.c) / d;
+        let t = ((d - a.r) * (d + a.r) + b.r * b.r) / (2.0 * d);
+        let t = t.max(-b.r).min(b.r);
+        let h = ((b.r - t) * (b.r + t)).max(0.0).sqrt();
+        let foot = b.c + dir * t;
+        let par = Point::new(-dir.y, dir.x);
+        let (u, v) = (foot + par * h, foot - par * h);
         CircleIntersection::Intersect(u, v)
     } else if d < a.r + b.r + EPS {
         CircleIntersection::TouchOutside(a.c + (b.c - a.c) / d * a.r)
